@@ -16,7 +16,7 @@ SOURCES = ["utils.longest_common_subsequence"]
 RULE = (
     "U3: utils.longest_common_subsequence(range(n), range(m), matrix lookup) vs. Lcs.lcs in the Lean driver; "
     "cases = every relation for all n,m <= bound (exhaustive) + seeded random relations of mixed density up to "
-    "12x12 (quick) / 30x30 (thorough). Non-trivial = the optimum (by an independent DP) is strictly between 0 "
+    "12x12 (quick) / 30x30 (thorough); every fourth case also with a predicate that calls the helper itself. Non-trivial = the optimum (by an independent DP) is strictly between 0 "
     "and min(n,m); distinct by (n, m, relation bits)."
 )
 ASSUMPTIONS = [
@@ -24,12 +24,16 @@ ASSUMPTIONS = [
 ]
 
 
-def real_lcs(n, m, bits):
+def real_lcs(n, m, bits, nested=False):
     from xmldiff import utils
 
     calls = []
 
     def eqfn(i, j):
+        if nested:
+            # a predicate that uses the helper itself (a similarity of two words by their common letters): the statement
+            # is about any predicate, and the answer for (i, j) is the same relation bit
+            utils.longest_common_subsequence("abcab%d" % i, "bacb%d" % j, lambda x, y: x == y)
         return bits[i * m + j] == "1"
 
     try:
@@ -138,6 +142,12 @@ def _chunk(seed, lo, hi, extra):
         sig = oracle(n, m, bits, real)
         if sig:
             st.failures.append({"sig": sig, "n": n, "m": m, "bits": bits, "real": real})
+        if st.evaluations % 4 == 0 and n * m <= 144:
+            st.count("predicate_calls_the_helper")
+            rn = real_lcs(n, m, bits, nested=True)
+            sig = oracle(n, m, bits, rn)
+            if sig or rn != real:
+                st.failures.append({"sig": (sig or "C12/result-differs") + "/predicate-calls-the-helper", "n": n, "m": m, "bits": bits, "real": rn})
         if 0 < opt < min(n, m) and n >= 3:
             st.sample({"n": n, "m": m, "relation_rows": [bits[i * m:(i + 1) * m] for i in range(n)], "result": real})
     return st
